@@ -67,6 +67,18 @@ def _cases(tier):
     for opts in DICT_OPTS:
         for h in A.histories(DICT_OBJS, hd):
             yield {"h": h, "cfg": "ir+pydantic+dc", "dkr": opts["dkr"], "dkf": opts["dkf"]}
+    # list-valued positions with many distinct literals that share a long sorted prefix (content-dependent identity of literal sets)
+    pool = [f"s{i:02d}" for i in range(9)]
+    for n in (3, 6, 7, 8):
+        for wrap in ("list", "dict", "object_list"):
+            a, b = pool[:n - 1], pool[:n - 2] + [pool[n - 1]]
+            if wrap == "list":
+                yield {"h": [["J", {"a": a}], ["J", {"a": b}]], "cfg": "ir+pydantic+dc"}
+            elif wrap == "dict":
+                yield {"h": [["J", {"m": {f"k{i}": v for i, v in enumerate(a)}}], ["J", {"m": {f"k{i}": v for i, v in enumerate(b)}}]],
+                       "cfg": "ir+pydantic+dc", "dkr": [r"k\d"]}
+            else:
+                yield {"h": [["J", {"a": [{"t": a}, {"u": 1}]}], ["J", {"a": [{"t": b}]}]], "cfg": "ir+pydantic+dc"}
     # literal-limit axis
     for ml in (0, 1, 2, 3):
         for h in A.histories(["lit_a", "lit_b", "long", "null", "s_int", A.ABSENT], 3):
